@@ -40,6 +40,16 @@ Definition s_agg : str := [10;124;32;97;103;103;114;101;103;97;116;101;32;119;10
 Fixpoint join (sep : str) (l : list str) : str :=
   match l with [] => [] | [x] => x | x :: r => x ++ sep ++ join sep r end.
 
+(* ReplaceQueryTransformation("#[0-9]", "#"): the digit behind every '#' is dropped *)
+Fixpoint strip_hash (q : str) : str :=
+  match q with
+  | [] => []
+  | c :: r => match r with
+              | d :: r' => if N.eqb c 35 && N.leb 48 d && N.leb d 57 then c :: strip_hash r' else c :: strip_hash r
+              | [] => [c]
+              end
+  end.
+
 Definition finq_c (K : cfg) (p : payload dr cr) (i : nat) (q : str) : outcome str :=
   let idx := match p with PD d => d_index d | PC c => c_index c end in
   let q1 := match k_fmt K with
@@ -47,7 +57,7 @@ Definition finq_c (K : cfg) (p : payload dr cr) (i : nat) (q : str) : outcome st
             | 2 => s_idx ++ idx ++ s_idx2 ++ q ++ s_idx3
             | _ => q
             end in
-  let q2 := if k_pipe K then s_lt ++ q1 ++ s_gt else q1 in
+  let q2 := if k_pipe K then s_lt ++ strip_hash q1 ++ s_gt else q1 in
   let ff := match p with PD d => d_finfail d | PC c => c_finfail c end in
   if ff then SigmaErr E_Transformation else Ok q2.
 
@@ -107,5 +117,6 @@ Definition judge_collection
   let '(sres, serrs) := spec_go collect (out_enabled dr cr C) 0 al [] [] in
   let spec := order_ok && Nat.eqb (length al) (length C) && ostrs_eqb sres ires && errs_eqb serrs ierrs
               && counts_ok (out_enabled dr cr C) 0 al ncs in
-  let nontriv := has_fail al || existsb (fun r => match r with Cor _ _ _ => true | _ => false end) C in
+  let nontriv := has_fail al || existsb (fun r => match r with Cor _ _ _ => true | _ => false end) C
+                 || existsb (fun n => Nat.ltb 1 n) ncs in
   bits agree spec true nontriv.
